@@ -19,7 +19,9 @@ CONSTANTS NW,        \* threads_max
           Timeout, Spurious,
           MayFail,   \* BOOLEAN: a worker's Block encoder initialisation may fail (LZMA_MEM_ERROR)
           Gives, Spaces,
-          FlushActs  \* subset of {"FULL_FLUSH", "FULL_BARRIER"} the application may use
+          FlushActs, \* subset of {"FULL_FLUSH", "FULL_BARRIER"} the application may use
+          HdrSz,     \* size of the Stream Header (1 unit in model checking, 12 bytes in traces)
+          TailSz     \* size of Index + Stream Footer (2 units in model checking)
 
 W == 1..NW
 BufsLimit == 2 * NW
@@ -38,7 +40,7 @@ MInit == [pc |-> "out", act |-> "RUN", inAvail |-> 0, given |-> 0, outSpace |-> 
           blkLen |-> <<>>,       \* input units copied into each Block so far
           closedAt |-> {},       \* input offsets at which a Block was closed before being full
           flushOffsets |-> {},   \* input offsets at which the application asked to end a Block / the Stream
-          tailPos |-> 0,
+          tailPos |-> 0, tailSz |-> TailSz,
           lastProgress |-> 0, progressOk |-> TRUE, orderOk |-> TRUE, copyBad |-> FALSE]
 CInit == [free |-> <<>>, threadErr |-> "OK", outq |-> <<>>, readPos |-> 0, sigM |-> FALSE, progressIn |-> 0]
 TInit == [state |-> "IDLE", inSize |-> 0, sig |-> FALSE, pc |-> "none", blk |-> 0, inPos |-> 0, snapIn |-> 0,
@@ -85,14 +87,16 @@ Run ==
     /\ m.pc = "run"
     /\ UNCHANGED <<c, t>>
     /\ m' = CASE m.seq = "HDR" ->
-                  IF m.outSpace = 0 THEN Ret(m, "OK")
-                  ELSE [m EXCEPT !.outSpace = @ - 1, !.delivered = @ + 1, !.progress = TRUE, !.seq = "BLOCK", !.pc = "blkread"]
+                  LET n == Min(m.outSpace, HdrSz - m.tailPos)
+                      m1 == [m EXCEPT !.outSpace = @ - n, !.delivered = @ + n, !.progress = (m.progress \/ n > 0)]
+                  IN IF m.tailPos + n < HdrSz THEN Ret([m1 EXCEPT !.tailPos = @ + n], "OK")
+                     ELSE [m1 EXCEPT !.tailPos = 0, !.seq = "BLOCK", !.pc = "blkread"]
              [] m.seq = "BLOCK" -> [m EXCEPT !.pc = "blkread"]
              [] m.seq = "TAIL" ->        \* Index + Stream Footer: two units
-                  LET n == Min(m.outSpace, 2 - m.tailPos)
+                  LET n == Min(m.outSpace, m.tailSz - m.tailPos)
                       m1 == [m EXCEPT !.outSpace = @ - n, !.delivered = @ + n, !.progress = (m.progress \/ n > 0),
                                       !.tailPos = @ + n]
-                  IN IF m.tailPos + n < 2 THEN Ret(m1, "OK") ELSE Ret(m1, "STREAM_END")
+                  IN IF m.tailPos + n < m.tailSz THEN Ret(m1, "OK") ELSE Ret(m1, "STREAM_END")
 
 \* coder.mutex: check thread_error, lzma_outq_read
 BlkRead ==
@@ -318,16 +322,18 @@ WFinThr(w) ==
 QIdx(b) == IF \E i \in 1..Len(c.outq) : c.outq[i].b = b THEN CHOOSE i \in 1..Len(c.outq) : c.outq[i].b = b ELSE 0
 
 \* coder.mutex: finish the outbuf, move progress, return to the free stack, signal
-WFinCoder(w) ==
+WFinCoderTo(w, osz) ==
     /\ t[w].pc = "fincoder"
     /\ LET i == QIdx(t[w].blk)
            ok == t[w].result = "FINISH"
-           q1 == IF ok /\ i # 0 THEN [c.outq EXCEPT ![i] = [@ EXCEPT !.fin = TRUE, !.usize = t[w].snapIn, !.osz = t[w].snapIn + 1]]
+           q1 == IF ok /\ i # 0 THEN [c.outq EXCEPT ![i] = [@ EXCEPT !.fin = TRUE, !.usize = t[w].snapIn, !.osz = osz]]
                  ELSE c.outq
        IN c' = SigM([c EXCEPT !.outq = q1, !.free = <<w>> \o c.free,
                               !.progressIn = @ + (IF ok THEN t[w].snapIn ELSE 0)])
     /\ t' = [t EXCEPT ![w].progressIn = 0, ![w].pc = "top"]
     /\ UNCHANGED m
+
+WFinCoder(w) == WFinCoderTo(w, t[w].snapIn + 1)
 
 Worker(w) == WTop(w) \/ WWake(w) \/ (\E f \in (IF MayFail THEN BOOLEAN ELSE {FALSE}), inc \in BOOLEAN : WEncInit(w, f, inc))
              \/ WEncSync(w) \/ WEncCode(w) \/ WEncWaitFin(w) \/ WAfter(w) \/ WFinThr(w) \/ WFinCoder(w)
